@@ -9,6 +9,48 @@ import random
 from .. import core, execgen, execsuite, ttlgen, families
 
 
+CREATE = {
+    "str": [[b"SET", b"K", b"v"]], "list": [[b"RPUSH", b"K", b"a"]], "set": [[b"SADD", b"K", b"a"]], "hash": [[b"HSET", b"K", b"f", b"v"]],
+    "zset": [[b"ZADD", b"K", b"1", b"a"]], "stream": [[b"XADD", b"K", b"1-1", b"f", b"v"]],
+}
+# ways a key of each type ceases to exist other than plain DEL (each must take the deadline with it)
+EMPTY = {
+    "str": [[[b"DEL", b"K"]], [[b"RENAME", b"K", b"other"]]],
+    "list": [[[b"LPOP", b"K"]], [[b"RPOP", b"K", b"5"]], [[b"LREM", b"K", b"0", b"a"]], [[b"LTRIM", b"K", b"5", b"9"]], [[b"LMOVE", b"K", b"other", b"LEFT", b"RIGHT"]],
+             [[b"BLPOP", b"K", b"0.05"]], [[b"RENAME", b"K", b"other"]]],
+    "set": [[[b"SREM", b"K", b"a"]], [[b"SPOP", b"K"]], [[b"SPOP", b"K", b"3"]], [[b"SMOVE", b"K", b"other", b"a"]], [[b"SINTERSTORE", b"K", b"nokey", b"K"]],
+            [[b"SDIFFSTORE", b"K", b"nokey"]], [[b"SUNIONSTORE", b"K", b"nokey", b"nokey2"]], [[b"SADD", b"q", b"z"], [b"SINTERSTORE", b"K", b"K", b"q"]]],
+    "hash": [[[b"HDEL", b"K", b"f"]]],
+    "zset": [[[b"ZREM", b"K", b"a"]]],
+    "stream": [[[b"DEL", b"K"]]],
+}
+
+
+def deadline_follows_key(rng, n):
+    """a key with a deadline ceases to exist through each family's own emptying path and the name is re-created by a command that does
+    not clear deadlines: the new key must have no deadline (TTL -1) — a deadline left behind would be inherited"""
+    lines = []
+    kinds = list(CREATE)
+    for i in range(n):
+        t = rng.choice(kinds)
+        k = b"d%d" % rng.randint(0, 3)
+        sub = lambda argv: [k if a == b"K" else a for a in argv]
+        lines.append("R")
+        for c in CREATE[t]:
+            lines.append(execgen.render(sub(c), [k]))
+        lines.append(execgen.render([b"EXPIRE", k, rng.choice([b"1000", b"50", b"100000"])], [k]))
+        for c in rng.choice(EMPTY[t]):
+            lines.append(execgen.render(sub(c), [k, b"other"]))
+        t2 = rng.choice(kinds)
+        for c in CREATE[t2]:
+            c2 = sub(c)
+            if t2 == "str" and rng.random() < 0.7:
+                c2 = rng.choice([[b"APPEND", k, b"x"], [b"INCR", k], [b"SETRANGE", k, b"1", b"y"], [b"SET", k, b"v", b"KEEPTTL"], [b"SETNX", k, b"v"]])
+            lines.append(execgen.render(c2, [k]))
+        lines.append(execgen.render([b"TTL", k], [k], full=True))
+    return lines
+
+
 def run(R, ctx):
     rng = random.Random(R.seed * 7 + 6)
     nb, n = (2, 600) if R.tier == "quick" else (30, 800)
@@ -16,12 +58,12 @@ def run(R, ctx):
     ex = families.ttl_extras()
     for _ in range(nb):
         lines += ttlgen.batch(rng, n, extra_setup=ex[0], extra_probe=ex[1])
-    execsuite.run_exec_suite(R, ctx, name="ttl-batches", gens=[(1, execgen.string_cmd)], nprog=(60, 600), corpus="exec_c06",
+    execsuite.run_exec_suite(R, ctx, name="ttl-batches", gens=families.all_gens(), nprog=(250, 3000), corpus="exec_c06",
                              what="TTL batches on the real clock: every way of attaching a deadline (SET EX/PX/EXAT, SETEX, EXPIRE with each option), "
                                   "modifiers (PERSIST, SET with/without KEEPTTL, RENAME, DEL, APPEND, MSET, refused NX/XX), probes by every reading and "
                                   "writing string/key command before the deadline, in the lazy-expiry-only window and after the timers fired; plus "
-                                  "ordinary programs with long, zero and negative TTLs",
-                             extra_lines=lines)
+                                  "ordinary programs of every command family with long, zero and negative TTLs (a deadline left behind by a deleted key, or inherited by a re-created one, shows in the dump)",
+                             extra_lines=lines + deadline_follows_key(rng, 400 if R.tier == "quick" else 6000))
     R.extra["ttl_batches"] = dict(batches=nb, scenarios_per_batch=n, attach_kinds=ttlgen.ATTACH, modifiers=ttlgen.MODIFY, probes=ttlgen.PROBES)
 
 
